@@ -11,15 +11,16 @@ import (
 
 // Value is one key's typed value.
 type Value struct {
-	Type     string // string | hash | list | set | zset | stream | opaque
-	Str      []byte
-	Hash     map[string][]byte
-	List     [][]byte
-	Set      map[string]struct{}
-	ZSet     map[string]float64
-	Stream   *Stream
-	Opaque   interface{} // installed by RESTORE through Server.RestoreDecoder
-	ExpireAt int64       // absolute ms on the server's virtual clock; 0 = none
+	Type      string // string | hash | list | set | zset | stream | opaque
+	Str       []byte
+	Hash      map[string][]byte
+	HashOrder []string // field names in insertion order (deleted ones may linger; HGETALL skips them)
+	List      [][]byte
+	Set       map[string]struct{}
+	ZSet      map[string]float64
+	Stream    *Stream
+	Opaque    interface{} // installed by RESTORE through Server.RestoreDecoder
+	ExpireAt  int64       // absolute ms on the server's virtual clock; 0 = none
 }
 
 type StreamEntry struct {
@@ -548,6 +549,7 @@ func cloneDBs(in map[int]DB) map[int]DB {
 				for f, x := range v.Hash {
 					c.Hash[f] = cloneBytes(x)
 				}
+				c.HashOrder = append([]string{}, v.HashOrder...)
 			}
 			if v.List != nil {
 				c.List = make([][]byte, len(v.List))
